@@ -239,6 +239,22 @@ class Roles:
             return self.role(expr.args[0], f, depth + 1)          # a re-packaging of the same node collection
         # a traversal variable is a name, or a field of one closure object (`state.last_node`): both are tracked by their text
         is_field = isinstance(expr, ast.Attribute) and isinstance(expr.value, ast.Name) and expr.value.id not in ("self", "cls")
+        # ... or a field of the traversal object itself: `self.last_node` inside a private helper class (not CPGraph) - every store into it in any method of that class
+        qf = self.m.qualname_of(f) if f is not None else "?"
+        if qf == "?" and f is not None:          # an inlined copy: the same name at the same line
+            qf = next((q_ for q_, g_ in self.m.functions.items() if g_.name == getattr(f, "name", None) and g_.lineno == getattr(f, "lineno", -1)), "?")
+        own_cls = qf.split(".")[0] if "." in qf and qf.split(".")[0] in self.m.classes and qf.split(".")[0] != "CPGraph" else None
+        if own_cls is not None and isinstance(expr, ast.Attribute) and isinstance(expr.value, ast.Name) and expr.value.id == "self":
+            out, found_def = set(), False
+            for q_, fn in self.m.functions.items():
+                if not (q_.startswith(own_cls + ".") and q_.count(".") == 1):
+                    continue
+                for st in ast.walk(fn):
+                    tg = st.targets if isinstance(st, ast.Assign) else [st.target] if isinstance(st, ast.AnnAssign) and st.value is not None else []
+                    if any(isinstance(t, ast.Attribute) and ast.unparse(t) == ast.unparse(expr) for t in tg):
+                        found_def = True
+                        out |= self.role(st.value, fn, depth + 1)
+            return out if found_def and out else {("ANY", ast.unparse(expr))}
         if not isinstance(expr, ast.Name) and not is_field:
             return {("ANY", ast.unparse(expr))}
         name = ast.unparse(expr)
@@ -330,12 +346,13 @@ def _sites(db, chk, m):
     sites = []
     wrappers = set()
     for q, f0 in m.functions.items():
-        if not q.startswith("CPGraph."):
+        # (methods of CPGraph, and of private helper classes of the module that work on a graph handed to them: a traversal visitor, a builder state)
+        if not (q.startswith("CPGraph.") or (q.startswith("_") and "." in q and q.split(".")[0] in m.classes)):
             continue
         # private wrappers around the edge helper (e.g. "create the edge and attribute it") are read as if written out at their call sites
         f = H.inline_helpers(m, f0, exclude=("_add_edge_helper", "_attribute_edge", "_add_edge", "_validate_graph")) if m.enclosing_function(f0) is None else f0
         for c in (ast.walk(f) if f is not f0 else walk_no_nested(f)):
-            if isinstance(c, ast.Call) and isinstance(c.func, ast.Attribute) and c.func.attr == "_add_edge_helper" and H.is_self_attr(c.func):
+            if isinstance(c, ast.Call) and isinstance(c.func, ast.Attribute) and c.func.attr == "_add_edge_helper" and (H.is_self_attr(c.func) or not q.startswith("CPGraph.")):
                 if f is not f0 and any(c is x for g in ast.walk(f) if isinstance(g, (ast.FunctionDef, ast.AsyncFunctionDef)) and g is not f for x in ast.walk(g)):
                     continue          # inside a nested function: visited with that function
                 tb = H.bind_call(helper, c).get("type")
